@@ -196,6 +196,20 @@ def sat_guard(P, fn, bi, ops):
                 sat[t2["d"][0]] = b2
     if not sat:
         return None
+    from mirutil import copy_root
+    # the comparison may be evaluated into a named boolean first (`let runs_past_end = a.saturating_add(b) > c;`)
+    cmp_locals = {}
+    for b in fn.blocks:
+        for st in b["s"]:
+            if st[0] == "a" and not st[1][1] and st[2]["k"] == "bin" and st[2]["op"] in ("Gt", "Lt"):
+                x, y = op_local(st[2]["a"]), op_local(st[2]["b"])
+                if not x or not y:
+                    continue
+                big, small = (x, y) if st[2]["op"] == "Gt" else (y, x)
+                if copy_root(fn, big[0]) in sat and value_id(fn, small[0]) == vc:
+                    cmp_locals[st[1][0]] = st[3]
+    if not cmp_locals:
+        return None
     for ci, b in enumerate(fn.blocks):
         if ci == bi or not P.dominates(fn, ci, bi):
             continue
@@ -203,17 +217,13 @@ def sat_guard(P, fn, bi, ops):
         if t["k"] != "switch":
             continue
         sl = op_local(t["o"])
-        for st in b["s"]:
-            if st[0] == "a" and sl and st[1][0] == sl[0] and st[2]["k"] == "bin" and st[2]["op"] in ("Gt", "Lt"):
-                x, y = op_local(st[2]["a"]), op_local(st[2]["b"])
-                if not x or not y:
-                    continue
-                big, small = (x, y) if st[2]["op"] == "Gt" else (y, x)
-                from mirutil import copy_root
-                if copy_root(fn, big[0]) in sat and value_id(fn, small[0]) == vc:
-                    fb = [tb for v, tb in t["t"] if v == 0]
-                    if fb and bi not in P.reach(fn, fb, stop={ci}):
-                        return "`a.saturating_add(b) > c` dominates `c - a` (line %d)" % st[3]
+        if not sl or sl[1]:
+            continue
+        src = sl[0] if sl[0] in cmp_locals else copy_root(fn, sl[0])
+        if src in cmp_locals:
+            fb = [tb for v, tb in t["t"] if v == 0]
+            if fb and bi not in P.reach(fn, fb, stop={ci}):
+                return "`a.saturating_add(b) > c` dominates `c - a` (line %d)" % cmp_locals[src]
     return None
 
 
